@@ -354,6 +354,19 @@ def exec_params():
     return out
 
 
+def ctx_binding():
+    """TaskCoordinator.run builds the runner from self.lab.context, read when the call is made."""
+    run = _find(_src('lab.py'), 'TaskCoordinator', 'run')
+    if run is None:
+        return 'CtxBindUnknown'
+    calls = [n for n in ast.walk(run) if isinstance(n, ast.Call) and ast.unparse(n.func).endswith('.build_runner')]
+    if len(calls) == 1:
+        kw = {k.arg: ast.unparse(k.value) for k in calls[0].keywords}
+        if kw.get('context') == 'self.lab.context' and ast.unparse(calls[0].func) == 'self.lab.runner_backend.build_runner':
+            return 'CtxAtRun'
+    return 'CtxBindUnknown'
+
+
 def ctx_params():
     out = dict(serial='false', fork='false', spawn='false')
     se = _find(_src('runners/serial.py'), 'SerialRunner', 'wait')
@@ -554,6 +567,8 @@ def with_probes():
     xp = ctx_params()
     for k in ('serial', 'fork', 'spawn'):
         _settle(xp, k, 'false', probed)
+    xp['binding'] = ctx_binding()
+    _settle(xp, 'binding', 'CtxBindUnknown', probed)
     cp = cache_params()
     _settle(cp, 'order', 'UnknownOrder', probed)
     _settle(cp, 'cleanup', 'UnknownCleanup', probed)
@@ -583,7 +598,8 @@ def render():
               'Definition flush_before_result_src : bool := %(fb)s.' % lp,
               'Definition consume_after_results_src : bool := %(ca)s.' % lp,
               'Definition log_queue_src : log_queue_kind := %(lq)s.' % lp]
-    lines += ['Definition ctx_sites_src : ctx_sites := {| cf_serial := %(serial)s; cf_fork := %(fork)s; cf_spawn := %(spawn)s |}.' % xp]
+    lines += ['Definition ctx_sites_src : ctx_sites := {| cf_serial := %(serial)s; cf_fork := %(fork)s; cf_spawn := %(spawn)s |}.' % xp,
+              'Definition ctx_binding_src : ctx_binding := %(binding)s.' % xp]
     lines += ['Definition start_policy_src : start_policy := %(start)s.' % ep,
               'Definition proc_ctor_src : proc_ctor := %(ctor)s.' % ep,
               'Definition wait_policy_src : wait_policy := %(wait)s.' % ep,
